@@ -2,6 +2,7 @@
   C17 — Conventional pagers are resolved correctly (page-number algorithm).
   Definitions: Props/C17Defs.lean; per-family cell checks: Props/C17Fam*.lean.
 -/
+import Distill.Proofs.ScanPager
 import Distill.Props.LinkScoreProps
 import Distill.Proofs.Terms
 import Distill.Gen.Tables
@@ -92,6 +93,21 @@ theorem pager_calls_give_group (pages : List String) (n k : Nat) (hn : 2 ≤ n) 
     simpa [pagerEntries, List.range_eq_range'] using this
   rw [Pg.ascending_one_group _ hlen hasc]
   rfl
+
+/-- **The DOM scan on a conventional pager.**  For a pager of N links, 2 ≤ N ≤ 12, seen from page k —
+the links 1 … N in one element, the current page as plain text or wrapped in `<strong>`, with or without
+white-space text nodes between the items — the scan of `Model/Scan.lean` (executed against the real scan,
+stage numberscan) leaves exactly one group: 1 … N ascending, every link with its URL, the current
+page without.  Kernel evaluation over the 77 × 4 cells. -/
+theorem conventional_pager_scan (n k : Nat) (hn : 2 ≤ n ∧ n ≤ 12) (hk : 1 ≤ k ∧ k ≤ n) (wrap sep : Bool) :
+    (Scan.scanGroups (ScanPager.atoms n k wrap sep) (ScanPager.tree n k wrap sep)).map
+      (·.map fun g => (g.deltaSign, g.list.map fun p => (p.num, p.url))) = some (ScanPager.canonical n k) := by
+  have hc : (n, k) ∈ ScanPager.cells := by
+    unfold ScanPager.cells
+    simp only [List.mem_flatMap, List.mem_map, List.mem_range, Prod.mk.injEq]
+    exact ⟨n, ⟨n - 2, by omega, by omega⟩, k, ⟨k - 1, by omega, by omega⟩, rfl, rfl⟩
+  have := ScanPager.pager_scan_cells (n, k) hc wrap (by cases wrap <;> simp) sep (by cases sep <;> simp)
+  simpa [ScanPager.cellOk] using this
 
 /-- **Prev/next algorithm.**  A candidate that is not banned, scored at least 50 and scored
 strictly higher than every other eligible candidate with a different href is what the finder
